@@ -275,18 +275,14 @@ func gatePar1(w *World, r *Report) {
 						setOK = true
 					}
 					if strings.HasSuffix(a.Path, ".header.VolumeNumber") {
-						// other side: i+1
-						found := false
-						backSlice(pr[1], func(v ssa.Value) bool {
-							if bo, ok := v.(*ssa.BinOp); ok && bo.Op == token.ADD {
-								if c, ok := constUint(bo.Y); ok && c == 1 {
-									found = true
-								}
+						// other side: the very number the volume's file name was built from
+						for _, vc := range callsIn(lit, "(*par1.Decoder).volumePath") {
+							_ = vc
+						}
+						for _, vc := range callsIn(fn, "(*par1.Decoder).volumePath") {
+							if sameImage(stripAllConv(pr[1]), stripAllConv(vc.Common().Args[1])) || sameNumber(pr[1], vc.Common().Args[1]) {
+								numOK = true
 							}
-							return true
-						})
-						if found {
-							numOK = true
 						}
 					}
 				}
@@ -301,6 +297,77 @@ func gatePar1(w *World, r *Report) {
 			}
 		}
 		r.floor("GATE", "parity volume acceptance returns", n, 1)
+		// every candidate volume number 1..max is probed: the loop makes exactly max trips
+		for _, vc := range callsIn(fn, "(*par1.Decoder).volumePath") {
+			if vc.Parent() != fn {
+				continue
+			}
+			arg := stripAllConv(vc.Common().Args[1])
+			off := int64(0)
+			base := arg
+			if bo, ok := arg.(*ssa.BinOp); ok && bo.Op == token.ADD {
+				if c, ok := constInt(bo.Y); ok {
+					off, base = c, stripAllConv(bo.X)
+				}
+			}
+			// base: load of a cell, or a phi
+			start, cmpOp, okShape := int64(-1), token.ILLEGAL, false
+			var bound ssa.Value
+			switch x := base.(type) {
+			case *ssa.UnOp:
+				cell := x.X
+				for _, ref := range referrersOf(cell) {
+					if st, ok := ref.(*ssa.Store); ok && st.Addr == cell {
+						if c, ok := constInt(st.Val); ok {
+							start = c
+						}
+					}
+					if ld, ok := ref.(*ssa.UnOp); ok {
+						for _, r2 := range referrersOf(ld) {
+							if bo, ok := r2.(*ssa.BinOp); ok && (bo.Op == token.LSS || bo.Op == token.LEQ) && bo.X == ssa.Value(ld) {
+								for _, r3 := range referrersOf(bo) {
+									if _, isIf := r3.(*ssa.If); isIf {
+										cmpOp, bound = bo.Op, bo.Y
+									}
+								}
+							}
+						}
+					}
+				}
+			case *ssa.Phi:
+				for _, e := range x.Edges {
+					if c, ok := constInt(e); ok {
+						start = c
+					}
+				}
+				for _, ref := range referrersOf(x) {
+					if bo, ok := ref.(*ssa.BinOp); ok && (bo.Op == token.LSS || bo.Op == token.LEQ) && bo.X == ssa.Value(x) {
+						cmpOp, bound = bo.Op, bo.Y
+					}
+				}
+			}
+			// bound must be the size of the parity table
+			isMax := false
+			for _, b := range fn.Blocks {
+				for _, in := range b.Instrs {
+					if mk, ok := in.(*ssa.MakeSlice); ok && bound != nil && mk.Len == bound {
+						isMax = true
+					}
+				}
+			}
+			first := start + off
+			switch {
+			case cmpOp == token.LSS && isMax && start == 0 && first == 1:
+				okShape = true
+			case cmpOp == token.LEQ && isMax && start == 1 && first == 1:
+				okShape = true
+			}
+			if okShape {
+				r.ok("GATE", "G5:LoadParityData:probe-range", w.ipos(vc), "volume numbers 1..max are probed (loop makes exactly max trips, max = size of the parity table)")
+			} else {
+				r.bad("GATE", "G5:LoadParityData:probe-range", w.ipos(vc), fmt.Sprintf("the probing loop does not cover volume numbers 1..max (first number %d, loop condition %s against the table size=%v): some parity volume is never looked for", first, cmpOp, isMax))
+			}
+		}
 	} else {
 		r.unk("GATE", "G5:LoadParityData", "-", "function not found")
 	}
@@ -459,4 +526,67 @@ func ruleGATE(w *World, r *Report, o gateOpts) {
 	if o.par1 {
 		gatePar1(w, r)
 	}
+}
+
+// sameNumber: two values are the same arithmetic expression over the same loop variable
+// (e.g. both are i+1 computed in different functions of one closure chain).
+func sameNumber(a, b ssa.Value) bool {
+	a, b = stripAllConv(a), stripAllConv(b)
+	if a == b {
+		return true
+	}
+	// captured variable: loads of the same cell
+	la, ok1 := a.(*ssa.UnOp)
+	lb, ok2 := b.(*ssa.UnOp)
+	if ok1 && ok2 && la.X == lb.X {
+		return true
+	}
+	ba, ok1 := a.(*ssa.BinOp)
+	bb, ok2 := b.(*ssa.BinOp)
+	if ok1 && ok2 && ba.Op == bb.Op {
+		ca, okA := constBig(ba.Y)
+		cb, okB := constBig(bb.Y)
+		if okA && okB && ca.Cmp(cb) == 0 {
+			return sameNumber(ba.X, bb.X) || freeVarOf(ba.X, bb.X) || freeVarOf(bb.X, ba.X)
+		}
+	}
+	return freeVarOf(a, b) || freeVarOf(b, a)
+}
+
+// freeVarOf: inner is a load of a free variable of a closure whose binding cell holds outer (or outer is a load of that cell).
+func freeVarOf(inner, outer ssa.Value) bool {
+	ld, ok := inner.(*ssa.UnOp)
+	if !ok {
+		return false
+	}
+	fv, ok := ld.X.(*ssa.FreeVar)
+	if !ok {
+		return false
+	}
+	lit := fv.Parent()
+	idx := -1
+	for i, f := range lit.FreeVars {
+		if f == fv {
+			idx = i
+		}
+	}
+	if idx < 0 || lit.Parent() == nil {
+		return false
+	}
+	for _, b := range lit.Parent().Blocks {
+		for _, in := range b.Instrs {
+			if mc, ok := in.(*ssa.MakeClosure); ok && mc.Fn == ssa.Value(lit) && idx < len(mc.Bindings) {
+				cell := mc.Bindings[idx]
+				if ol, ok := outer.(*ssa.UnOp); ok && ol.X == cell {
+					return true
+				}
+				for _, ref := range referrersOf(cell) {
+					if st, ok := ref.(*ssa.Store); ok && st.Addr == cell && st.Val == outer {
+						return true
+					}
+				}
+			}
+		}
+	}
+	return false
 }
